@@ -25,6 +25,7 @@ variable {m n : ℕ}
 set_option linter.unusedTactic false
 set_option linter.unreachableTactic false
 set_option linter.unnecessarySeqFocus false
+set_option linter.unusedSimpArgs false
 
 /-! ## Normal forms
 
@@ -52,12 +53,12 @@ private theorem nf_S (K : Matrix (Fin m) (Fin n) ℝ) (Sa : Matrix (Fin n) (Fin 
 private theorem nf_G (K : Matrix (Fin m) (Fin n) ℝ) (Sa : Matrix (Fin n) (Fin n) ℝ)
     (Sy : Matrix (Fin m) (Fin m) ℝ) :
     retrieval_gain_matrix K Sa Sy = (Kᵀ * Sy⁻¹ * K + Sa⁻¹)⁻¹ * Kᵀ * Sy⁻¹ := by
-  simp only [retrieval_gain_matrix] <;> oem_nf
+  simp only [retrieval_gain_matrix, nf_S] <;> oem_nf
 
 private theorem nf_A (K : Matrix (Fin m) (Fin n) ℝ) (Sa : Matrix (Fin n) (Fin n) ℝ)
     (Sy : Matrix (Fin m) (Fin m) ℝ) :
     averaging_kernel_matrix K Sa Sy = (Kᵀ * Sy⁻¹ * K + Sa⁻¹)⁻¹ * Kᵀ * Sy⁻¹ * K := by
-  simp only [averaging_kernel_matrix, nf_G] <;> oem_nf
+  simp only [averaging_kernel_matrix, nf_G, nf_S] <;> oem_nf
 
 private theorem nf_smooth (x xa : Fin n → ℝ) (A : Matrix (Fin n) (Fin n) ℝ) :
     smoothing_error x xa A = A *ᵥ (x - xa) := by
@@ -66,7 +67,7 @@ private theorem nf_smooth (x xa : Fin n → ℝ) (A : Matrix (Fin n) (Fin n) ℝ
 private theorem nf_noise (K : Matrix (Fin m) (Fin n) ℝ) (Sa : Matrix (Fin n) (Fin n) ℝ)
     (Sy : Matrix (Fin m) (Fin m) ℝ) (e : Fin m → ℝ) :
     retrieval_noise K Sa Sy e = ((Kᵀ * Sy⁻¹ * K + Sa⁻¹)⁻¹ * Kᵀ * Sy⁻¹) *ᵥ e := by
-  simp only [retrieval_noise, nf_G] <;> oem_nf
+  simp only [retrieval_noise, nf_G, nf_S] <;> oem_nf
 
 /-! ## Posterior covariance `S` -/
 
